@@ -147,7 +147,7 @@ func (self Node) enum() (int, error) {
 	}
 }
 
-// Float64 returns the float64 value contained by a DOUBLE node
+// Float64 returns the float64 value contained by a DOUBLE or FLOAT node
 func (self Node) Float64() (float64, error) {
 	if self.IsError() {
 		return 0, self
@@ -160,8 +160,11 @@ func (self Node) float64() (float64, error) {
 	case proto.DOUBLE:
 		v, _ := protowire.BinaryDecoder{}.DecodeDouble(rt.BytesFrom(self.v, int(self.l), int(self.l)))
 		return v, nil
+	case proto.FLOAT:
+		v, _ := protowire.BinaryDecoder{}.DecodeFloat32(rt.BytesFrom(self.v, int(self.l), int(self.l)))
+		return float64(v), nil
 	default:
-		return 0, errNode(meta.ErrUnsupportedType, "Node.float64: the Node type is not DOUBLE", nil)
+		return 0, errNode(meta.ErrUnsupportedType, "Node.float64: the Node type is not DOUBLE or FLOAT", nil)
 	}
 }
 
@@ -348,6 +351,10 @@ func (self Value) Interface(opts *Options) (interface{}, error) {
 		return self.uint()
 	case proto.DOUBLE:
 		return self.float64()
+	case proto.FLOAT:
+		// a float field is a Go float32, as in the descriptor-driven reader
+		v, err := self.float64()
+		return float32(v), err
 	case proto.BYTE:
 		return self.binary()
 	case proto.STRING:
